@@ -34,6 +34,16 @@ CLAIMS = {
          "Every panic-capable site in selection / slate construction reachable from the send entry points is discharged by a recognised dominating guard, allow-listed with a read reason (counted) or reported (6 defects repaired); initiation cannot reach lock_output and saves its context only after selection succeeded; candidates are the source account's outputs passing eligible_to_spend, whose truth table (per status x coinbase x lock height) is enumerated; fee is a tx_fee(coins.len(), ..) result. The conservation equation itself is numeric and not decided."),
  "C09": ("panic-site reachability over the resolved call graph with decoding callback edges, guard discharge, counted allow-list; effect-freedom of decoders", "4 C09",
          "From 630 decoder entry points (slatepack/armor/slate JSON and binary, addresses, payment proofs, both JSON-RPC listeners incl. the generated parameter decoding, the remote wallet's HTTP reply) every reachable panic-capable site is auto-discharged, allow-listed with a reason and a frozen count, or reported (9 defect groups repaired in /repo); allocation sizes derive from bounded-width reads; no wallet effect is reachable from a decoder. Panics inside dependencies are out of reach (no MIR)."),
+ "C03": ("who-may-call / field-writer tables + dominance of status guards at the lock step + sibling cross-check of duplicate tests + call-site multiplicity", "4 C03",
+         "Only lock_tx_context (and the mwixnet request) reserve outputs and every writer of OutputData.status is tabled; the lock step re-checks that the freshly read input is neither Locked nor Spent and each slate-taking step recognises a replay (existing entry for the slate id) before any effect (both repaired defects); selection never returns Locked/Spent outputs; one log entry and one output per step. Exclusivity over all interleaved histories is not decided as such."),
+ "C04": ("table of all consumers of iter()/tx_log_iter() with closure path enumeration of the account predicate + path-enumerated partition of retrieve_info + accumulator dependency sets + batch typestate", "4 C04",
+         "Every consumer of the record iterators filters on the account argument (true only via the equality edge) or is tabled with a reason; per output status at most one balance accumulator is incremented and each WalletInfo figure is fed by exactly the accumulators the statement names; a refresh is one batch and writes nothing when the node is behind. Equality with the node's UTXO set and the ledger identity are not decided."),
+ "C06": ("batch typestate per atomic group + dropped-Result detection over all storage/file effects + taint of file buffers into panic sites + panic-site analysis of query paths", "4 C06",
+         "Seven atomic groups each use one batch and one commit with the side file written after the commit; every locker also logs (1 known finding: mwixnet request); no Result of a storage or file-system effect is dropped (186 call sites; 1 defect repaired); values parsed from a possibly truncated file are never unwrapped (defect repaired); query paths used after reopening do not panic on the wallet's own records. Enumeration of crash points as executions is not done."),
+ "C18": ("path-enumerated transition tables of the output state machine + cut-set guards of the refresh branches", "4 C18",
+         "eligible_to_spend is false for Reverted; Reverted value feeds only amount_reverted; mark_unspent/mark_spent/mark_reverted have exactly the statement's transition tables; in a refresh mark_reverted needs (absent from node, not coinbase, log id in reverted_kernels) and a kernel counts as reverted only on the node's Ok(None); re-confirmation restores the entry. Fork histories are not decided."),
+ "C19": ("per-criterion table: query field -> entry fields and normalised comparison operator, extracted from the filter closures; path enumeration of the None edges; account predicate", "4 C19",
+         "Each of the 18 query fields is read by exactly one filter closure that compares the documented entry field(s) with the documented inclusive operator / variant set, returns true when the criterion is absent, and both query paths restrict to the account argument (two defects repaired); limit, sort field and direction are applied; legacy look-ups compare id / slate id. Sort stability is not decided."),
 }
 
 checks = []
